@@ -84,29 +84,32 @@ Definition lv_name (k : lvkind) : Z :=
   match k with
   | LvGlobal _ => 0
   | LvFunc n _ => n
-  | LvFuncNoFile _ => 0
+  | LvFuncNoFile n _ => n
   | LvNative n => n
   end.
 Definition lv_file (k : lvkind) : Z :=
   match k with
   | LvGlobal f => f
   | LvFunc _ f => f
-  | LvFuncNoFile f => f
+  | LvFuncNoFile _ f => f
   | LvNative _ => -1
   end.
 Definition lv_is_native (k : lvkind) : bool := match k with LvNative _ => true | _ => false end.
 
-(* the file whose text is running at the end of the events, and the last call site *)
-Definition spec_step (st : Z * list Z * option (Z * Z * Z)) (e : event) : Z * list Z * option (Z * Z * Z) :=
-  let '(cur, stk, site) := st in
+(* the file whose text is running at the end of the events, and the last call
+   site (file, idx, line, col); idx is carried along only to state consistency *)
+Definition site := (Z * Z * Z * Z)%type.
+Definition spec_step (st : Z * list Z * option site) (e : event) : Z * list Z * option site :=
+  let '(cur, stk, s) := st in
   match e with
-  | EvCall _ _ line col => (cur, stk, Some (cur, line, col))
-  | EvEvalEnter f => (f, cur :: stk, site)
-  | EvEvalLeave => match stk with [] => (cur, [], site) | s :: stk' => (s, stk', site) end
+  | EvCall _ idx line col => (cur, stk, Some (cur, idx, line, col))
+  | EvEvalEnter f => (f, cur :: stk, s)
+  | EvEvalLeave => match stk with [] => (cur, [], s) | c :: stk' => (c, stk', s) end
   end.
-Definition spec_run (lv : level) : Z * list Z * option (Z * Z * Z) :=
+Definition spec_run (lv : level) : Z * list Z * option site :=
   fold_left spec_step (snd lv) (lv_file (fst lv), [], None).
 Definition spec_cur_file (lv : level) : Z := fst (fst (spec_run lv)).
+Definition spec_site (lv : level) : option site := snd (spec_run lv).
 
 Definition fname_of (files : file_table) (i : Z) : Z :=
   match get_file files i with Some (n, _) => n | None => -1 end.
@@ -115,8 +118,8 @@ Definition fname_of (files : file_table) (i : Z) : Z :=
 Definition spec_outer (files : file_table) (lv : level) : Z * sloc :=
   (lv_name (fst lv),
    if lv_is_native (fst lv) then SNative
-   else match snd (spec_run lv) with
-        | Some (f, line, col) => SPos (fname_of files f) line col
+   else match spec_site lv with
+        | Some (f, _, line, col) => SPos (fname_of files f) line col
         | None => SUnknown
         end).
 
@@ -204,6 +207,7 @@ Definition spec_class (kind : Z) : Z :=
   | 34 => 6                   (* 9.9 ToObject -> TypeError *)
   | 35 => 6                   (* 15.4.4.16-22 step 4 -> TypeError *)
   | 36 => 6                   (* 8.12.9 Reject with Throw -> TypeError *)
+  | 37 => 5                   (* 15.10.4.1 -> SyntaxError *)
   | 41 => 1 | 42 => 2 | 43 => 3 | 44 => 4 | 45 => 5 | 46 => 6 | 47 => 7   (* 15.11.2, 15.11.7.4 *)
   | 51 => 1 | 52 => 2 | 53 => 3 | 54 => 4 | 55 => 5 | 56 => 6 | 57 => 7   (* 15.11.1, 15.11.7.2 *)
   | _ => 0
@@ -213,4 +217,4 @@ Definition spec_class (kind : Z) : Z :=
 Definition spec_msg_nonempty (kind : Z) : bool := true.
 
 Definition known_kind (kind : Z) : bool :=
-  ((1 <=? kind) && (kind <=? 36)) || ((41 <=? kind) && (kind <=? 47)) || ((51 <=? kind) && (kind <=? 57)).
+  ((1 <=? kind) && (kind <=? 37)) || ((41 <=? kind) && (kind <=? 47)) || ((51 <=? kind) && (kind <=? 57)).
